@@ -253,7 +253,22 @@ func cmdCheck(args []string) int {
 			knownFail[known[i].Obligation] = true
 		}
 	}
-	discharge(eng, allObls, dischargeOpts{outDir: outDir, timeout: timeout, jobs: 16, allSolvers: *tier == "thorough", seed: seed, knownFail: knownFail})
+	// Obligations of clauses tagged for other properties only (a callee pulled into this cone carries the
+	// clauses of every property it serves) are not counted by this check: the quick tier does not spend
+	// solver time on them (their own property's check discharges them); the thorough tier still runs them
+	// and lists the failing ones under other_properties_failing.
+	toDischarge := allObls
+	if *tier != "thorough" {
+		toDischarge = nil
+		for _, o := range allObls {
+			if o.Support || len(o.Tags) == 0 || hasTag(o.Tags, *prop) {
+				toDischarge = append(toDischarge, o)
+			} else {
+				o.Status = "not-run(other property)"
+			}
+		}
+	}
+	discharge(eng, toDischarge, dischargeOpts{outDir: outDir, timeout: timeout, jobs: 16, allSolvers: *tier == "thorough", seed: seed, knownFail: knownFail})
 
 	crossInfo := map[string]interface{}{}
 	if *tier == "thorough" {
@@ -289,7 +304,7 @@ func cmdCheck(args []string) int {
 		reports = append(reports, rep)
 		mine := o.Support || len(o.Tags) == 0 || hasTag(o.Tags, *prop)
 		if !mine {
-			if !o.ok() {
+			if !o.ok() && o.Status != "not-run(other property)" {
 				otherFailing = append(otherFailing, shortFn(o.Fn)+"/"+o.Name+" (tags "+strings.Join(o.Tags, ",")+")")
 			}
 			continue
